@@ -573,11 +573,11 @@ func genTimed(tier string, seed int64, only string) []*Case {
 	}
 	itoa := strconv.Itoa
 	durs := []int{2000, 3000, 5000}
-	perOp := 110
+	perOp := 320
 	maxN := 7
 	if tier == "thorough" {
 		durs = []int{1000, 2000, 3000, 5000, 8000, 12000}
-		perOp = 1400
+		perOp = 20000
 		maxN = 12
 	}
 
